@@ -40,7 +40,7 @@ PARAMS = [
 EXTRAS = ["none", "captured", "assigned", "live-temp"]
 
 
-def build(kind, ctx, par, extra, n):
+def build(kind, ctx, par, extra, n, probe=True):
     pname, ptxt, pstep, pinit = par
     cname, ctmpl = ctx
     body_extra_pre, body_extra_use = "", ""
@@ -63,7 +63,11 @@ def build(kind, ctx, par, extra, n):
         call = "(begin (set-box! cnt (+ 1 (unbox cnt))) %s)" % call
     if extra == "captured":
         call = "(if (null? cap) 0 %s)" % call
-    E = "(if (< i %d) (begin (chk! '{SITE}) %s) i)" % (n, call)
+    if probe:
+        E = "(if (< i %d) (begin (chk! '{SITE}) %s) i)" % (n, call)
+    else:
+        # probe-free loop body (a call to the probe changes how the function is compiled): the depth is read once, at loop exit
+        E = "(if (< i %d) %s (#%%verif-stack-depth))" % (n, call)
     steps = [PRE]
     if body_extra_pre:
         steps.append(body_extra_pre)
@@ -84,7 +88,8 @@ def build(kind, ctx, par, extra, n):
     else:
         steps.append("(define (lp i%s) %s)" % (ptxt, ctmpl.replace("{E}", E.replace("{SITE}", "a"))))
         steps.append("(lp 0%s)" % pinit)
-    steps.append("(list (unbox vf-bad) (unbox vf-visits))")
+    if probe:
+        steps.append("(list (unbox vf-bad) (unbox vf-visits))")
     return steps
 
 
@@ -101,6 +106,61 @@ SPECIAL = [
     ("while", lambda n: [PRE, "(define i 0)", "(while (< i %d) (chk! 'a) (set! i (+ i 1)))" % n, "(list (unbox vf-bad) (unbox vf-visits))"]),
     ("closure-tail", lambda n: [PRE, "(define (mk) (letrec ((lp (lambda (i) (if (< i %d) (begin (chk! 'a) (lp (+ i 1))) i)))) lp))" % n, "((mk) 0)",
                                 "(list (unbox vf-bad) (unbox vf-visits))"]),
+]
+MODDIR = __import__("os").path.join(common.VERIF, ".work", "c09mod")
+MODFILE = __import__("os").path.join(MODDIR, "loops.scm")
+
+
+def ensure_module():
+    import os
+    os.makedirs(MODDIR, exist_ok=True)
+    with open(MODFILE, "w") as fh:
+        fh.write("(provide mod-ev mod-self mod-rest)\n"
+                 "(define (mod-ev i n chk) (if (< i n) (begin (chk 'ma) (mod-od (+ i 1) n chk)) i))\n"
+                 "(define (mod-od i n chk) (if (< i n) (begin (chk 'mb) (mod-ev (+ i 1) n chk)) i))\n"
+                 "(define (mod-self i n chk) (if (< i n) (begin (chk 'mc) (mod-self (+ i 1) n chk)) i))\n"
+                 "(define (mod-rest i n chk . r) (if (< i n) (begin (chk 'md) (mod-helper (+ i 1) n chk)) i))\n"
+                 "(define (mod-helper i n chk) (if (< i n) (begin (chk 'me) (apply mod-rest (list (+ i 1) n chk 0))) i))\n")
+
+
+TAIL = "(list (unbox vf-bad) (unbox vf-visits))"
+SPECIAL += [
+    # a natively compiled pure function and a closure without native code (capturing / variadic / nested lambda) tail-calling each other
+    ("pingpong-capturing", lambda n: [PRE, "(define step (let ((stride 1)) (lambda (i) (if (< i %d) (begin (chk! 'b) (drive (+ i stride))) i)))) "
+                                           "(define (drive i) (if (< i %d) (begin (chk! 'a) (step (+ i 1))) i))" % (n, n), "(drive 0)", TAIL]),
+    ("pingpong-param", lambda n: [PRE, "(define (drive f i) (if (< i %d) (begin (chk! 'a) (f (+ i 1))) i)) "
+                                       "(define step (let ((s 1)) (lambda (i) (if (< i %d) (begin (chk! 'b) (drive step (+ i s))) i))))" % (n, n), "(drive step 0)", TAIL]),
+    ("pingpong-rest", lambda n: [PRE, "(define (step i . r) (if (< i %d) (begin (chk! 'b) (drive (+ i 1))) i)) "
+                                      "(define (drive i) (if (< i %d) (begin (chk! 'a) (step (+ i 1) 0 0)) i))" % (n, n), "(drive 0)", TAIL]),
+    ("pingpong-rest-apply", lambda n: [PRE, "(define (ping i . r) (if (< i %d) (begin (chk! 'a) (pong (+ i 1))) i)) "
+                                            "(define (pong i) (if (< i %d) (begin (chk! 'b) (apply ping (list (+ i 1) 0))) i))" % (n, n), "(ping 0)", TAIL]),
+    ("pingpong-nested-lambda", lambda n: [PRE, "(define (step i) (let ((f (lambda (x) (+ x 1)))) (if (< i %d) (begin (chk! 'b) (drive (f i))) i))) "
+                                               "(define (drive i) (if (< i %d) (begin (chk! 'a) (step (+ i 1))) i))" % (n, n), "(drive 0)", TAIL]),
+    ("pingpong-separate-units", lambda n: [PRE, "(define step #f)", "(define (drive i) (if (< i %d) (begin (chk! 'a) (step (+ i 1))) i))" % n,
+                                           "(set! step (let ((s 1)) (lambda (i) (if (< i %d) (begin (chk! 'b) (drive (+ i s))) i))))" % n, "(drive 0)", TAIL]),
+    ("pingpong-hof-separate-units", lambda n: [PRE, "(define (drive f i) (if (< i %d) (begin (chk! 'a) (f (+ i 1))) i))" % n,
+                                               "(define step (let ((s 1)) (lambda (i) (if (< i %d) (begin (chk! 'b) (drive step (+ i s))) i))))" % n, "(drive step 0)", TAIL]),
+    # the natively compiled side is probe-free (a call to the probe changes how it is compiled); the probe sits in the closure
+    ("pingpong-pure-driver-hof", lambda n: [PRE, "(define (drive f i) (f f i))",
+                                            "(define step (let ((s (string-length \"x\")) (driver drive)) (lambda (self i) (if (< i %d) (begin (chk! 'b) (driver self (+ i s))) i))))" % n,
+                                            "(step step 0)", TAIL]),
+    ("pingpong-pure-driver-global", lambda n: [PRE, "(define step #f)", "(define (drive i) (step (+ i 0)))",
+                                               "(set! step (let ((s (string-length \"x\"))) (lambda (i) (if (< i %d) (begin (chk! 'b) (drive (+ i s))) i))))" % n,
+                                               "(step 0)", TAIL]),
+    ("pingpong-pure-driver-rest", lambda n: [PRE, "(define step #f)", "(define (drive i) (step i 0))",
+                                             "(set! step (lambda (i . r) (if (< i %d) (begin (chk! 'b) (drive (+ i 1))) i)))" % n, "(step 0)", TAIL]),
+    ("pingpong-pure-driver-3", lambda n: [PRE, "(define (drive f i acc) (f f i acc))",
+                                          "(define step (let ((s (string-length \"x\")) (driver drive)) (lambda (self i acc) (if (< i %d) (begin (chk! 'b) (driver self (+ i s) (+ acc 2))) i))))" % n,
+                                          "(step step 0 0)", TAIL]),
+    # internal (lambda-lifted) functions
+    ("lifted-internal", lambda n: [PRE, "(define (outer n) (define (ev i m) (if (< i m) (begin (chk! 'a) (od (+ i 1) m)) i)) "
+                                        "(define (od i m) (if (< i m) (begin (chk! 'b) (ev (+ i 1) m)) i)) (ev 0 n))", "(outer %d)" % n, TAIL]),
+    ("lifted-internal-capture", lambda n: [PRE, "(define (outer n) (define (ev i) (if (< i n) (begin (chk! 'a) (od (+ i 1))) i)) "
+                                                "(define (od i) (if (< i n) (begin (chk! 'b) (ev (+ i 1))) i)) (ev 0))", "(outer %d)" % n, TAIL]),
+    # module-level functions (mangled ##-prefixed globals)
+    ("module-mutual", lambda n: [PRE, "(require \"%s\")" % MODFILE, "(mod-ev 0 %d chk!)" % n, TAIL]),
+    ("module-self", lambda n: [PRE, "(require \"%s\")" % MODFILE, "(mod-self 0 %d chk!)" % n, TAIL]),
+    ("module-rest-apply", lambda n: [PRE, "(require \"%s\")" % MODFILE, "(mod-rest 0 %d chk!)" % n, TAIL]),
 ]
 # shapes whose statement-level expectation is debatable are observed but only reported through evidence
 OBSERVE_ONLY = {"handler-body-tail"}
@@ -126,6 +186,26 @@ def work(item):
             continue
         if not chk.startswith("(lst (i 0) (i %d))" % N):
             fails.append((name, "stack depth grows after the first 8 visits of a call site: (visits above the early maximum, visits) = %s, expected (0 %d)" % (chk, N), steps))
+    return n, fails
+
+
+def work_exit_depth(item):
+    """probe-free loops: the stack depth observed at loop exit must not depend on the iteration count"""
+    env, lst = item
+    fails, n = [], 0
+    for name, kind, ctx, par, extra in lst:
+        obs = []
+        for N in (66, 1500):  # same residue modulo 2 and 3: the loop exits in the same function
+            steps = build(kind, ctx, par, extra, N, probe=False)
+            r = common.run_cases([{"id": 0, "steps": steps}], env=env, batch=1, timeout_ms=120000)[0]
+            n += 1
+            if r["exit"] != "normal" or len(r["steps"]) != len(steps) or any(s["s"] != "ok" for s in r["steps"]):
+                obs.append("FAILED(%s)" % r["exit"])
+            else:
+                obs.append(r["steps"][-1]["v"][-1])
+        if obs[0] != obs[1]:
+            fails.append((name + "/probe-free", "stack depth at loop exit depends on the iteration count: %s after 66, %s after 1500" % (obs[0], obs[1]),
+                          build(kind, ctx, par, extra, 1500, probe=False)))
     return n, fails
 
 
@@ -181,6 +261,7 @@ def main(argv=None):
     if a.replay:
         return common.replay_eval(a.replay)
     common.build()
+    ensure_module()
     rep = common.Reporter(P, a.tier)
     thorough = a.tier == "thorough"
     N = 20000 if thorough else 1500
@@ -198,9 +279,20 @@ def main(argv=None):
                     progs.append((name, build(kind, ctx, par, extra, N), N, "(i %d)" % N))
     for name, mk in SPECIAL:
         progs.append((name, mk(N), N, None))
+    pf = []
+    for kind in kinds:
+        for ctx in CTX:
+            for par in PARAMS:
+                for extra in EXTRAS:
+                    if not thorough and extra != "none" and ctx[0] not in ("plain", "let2", "cond"):
+                        continue
+                    if kind == "param" and par[0] == "rest":
+                        continue
+                    pf.append(("%s/%s/%s/%s" % (kind, ctx[0], par[0], extra), kind, ctx, par, extra))
     envs = [None, {"STEEL_JIT": "false"}]
     items = [(env, ch) for env in envs for ch in common.split_round_robin(progs, 16)]
     results = common.pmap(work, items)
+    results += common.pmap(work_exit_depth, [(env, ch) for env in [None, {"STEEL_JIT": "false"}] for ch in common.split_round_robin(pf, 16)])
     nrun = sum(r[0] for r in results)
     observed_only = []
     seen = set()
@@ -212,7 +304,7 @@ def main(argv=None):
             import re
             parts = name.split("/")
             cls = re.sub(r"\d+", "N", why)[:60]
-            key = (parts[0], parts[1] if len(parts) > 1 else "", cls) if "depth grows" in why else (name, cls)
+            key = (parts[0], parts[1] if len(parts) > 1 else "", cls) if ("depth grows" in why or "loop exit" in why) else (name, cls)
             if key in seen:
                 continue
             seen.add(key)
